@@ -1799,6 +1799,10 @@ func runLoopProgress(p *Prog, r *Report) {
 			n++
 			construct := "for " + exprStrOrEmpty(fs.Cond)
 			if fs.Cond == nil {
+				if why := treeDescentLoop(p, fn, fs); why != "" {
+					r.Add("E14.loop-progress", fn.Name, construct, p.Pos(fs), OK, why, true)
+					return true
+				}
 				r.Add("E14.loop-progress", fn.Name, construct, p.Pos(fs), Undecided, "loop without a condition", true)
 				return true
 			}
@@ -1832,6 +1836,9 @@ func runLoopProgress(p *Prog, r *Report) {
 				}
 				conj(fs.Cond)
 				if be == nil {
+					if why := treeDescentLoop(p, fn, fs); why != "" {
+						return OK, why
+					}
 					return Undecided, "loop condition does not compare a variable with a bound"
 				}
 				o := info.ObjectOf(id)
@@ -2440,4 +2447,208 @@ func (d *deriver) interfaceGetter(f *types.Func) bool {
 		}
 	}
 	return n > 0
+}
+
+// treeDescentLoop: a condition-less loop that walks down a finite tree:
+//
+//	for { x := pick(cur, …); if x == nil { break }; …; cur = x.Children() }
+//
+// The loop-carried variable cur has exactly one assignment inside the loop, a top-level
+// statement of the body with no continue before it; its right-hand side is a component
+// (a field, or a getter of a module interface that returns a field) of a local x that is
+// defined in the body as an element of cur (cur[i], a range value over cur, or the result of
+// a module function every non-nil result of which is an element of the slice it was handed
+// cur for); and the body leaves the loop when x is nil. Each iteration therefore replaces
+// cur by the children of one of its elements: the depth of the (finite, acyclic) tree bounds
+// the number of iterations.
+func treeDescentLoop(p *Prog, fn *Func, fs *ast.ForStmt) string {
+	info := fn.Info()
+	d := newDeriver(p, rootFunc(fn))
+	for si, st := range fs.Body.List {
+		as, ok := st.(*ast.AssignStmt)
+		if !ok || as.Tok != token.ASSIGN || len(as.Lhs) != 1 || len(as.Rhs) != 1 {
+			continue
+		}
+		cid, ok := as.Lhs[0].(*ast.Ident)
+		if !ok {
+			continue
+		}
+		cur := info.ObjectOf(cid)
+		if cur == nil || roleOfType(cur.Type()) == roleNone {
+			continue // only the finite trees of the data model (syntax, schema, targets, symbols)
+		}
+		// the only assignment of cur inside the loop
+		n := 0
+		for _, a := range fn.Assignments(cur) {
+			if nodeContains(fs.Body, a) {
+				n++
+			}
+		}
+		if n != 1 {
+			continue
+		}
+		// no continue before it
+		skip := false
+		for _, prev := range fs.Body.List[:si] {
+			ast.Inspect(prev, func(k ast.Node) bool {
+				switch y := k.(type) {
+				case *ast.ForStmt, *ast.RangeStmt, *ast.FuncLit:
+					return false
+				case *ast.BranchStmt:
+					if y.Tok == token.CONTINUE {
+						skip = true
+					}
+				}
+				return true
+			})
+		}
+		if skip {
+			continue
+		}
+		// rhs: a component of x
+		var xid *ast.Ident
+		switch r := ast.Unparen(as.Rhs[0]).(type) {
+		case *ast.SelectorExpr:
+			if sel, isField := info.Selections[r]; isField && sel.Kind() == types.FieldVal {
+				xid, _ = ast.Unparen(r.X).(*ast.Ident)
+			}
+		case *ast.CallExpr:
+			if sel, ok := ast.Unparen(r.Fun).(*ast.SelectorExpr); ok && len(r.Args) == 0 {
+				if f := calleeOf(info, r); f != nil && d.interfaceGetter(f) {
+					xid, _ = ast.Unparen(sel.X).(*ast.Ident)
+				}
+			}
+		}
+		if xid == nil {
+			continue
+		}
+		xo := info.ObjectOf(xid)
+		if xo == nil || !(xo.Pos() > fs.Body.Pos() && xo.Pos() < fs.Body.End()) {
+			continue
+		}
+		def := fn.SingleDef(xo)
+		if def == nil {
+			continue
+		}
+		elem := false
+		switch y := ast.Unparen(def).(type) {
+		case *ast.IndexExpr:
+			elem = isIdentObj(info, y.X, cur)
+		case *ast.CallExpr:
+			if f := calleeOf(info, y); f != nil {
+				if t := p.FuncOf[f]; t != nil && t.Body != nil {
+					for ai, a := range y.Args {
+						if isIdentObj(info, a, cur) && returnsElementOfParam(t, ai) {
+							elem = true
+						}
+					}
+				}
+			}
+		}
+		if !elem {
+			continue
+		}
+		// the loop is left when x is nil
+		leaves := false
+		for _, prev := range fs.Body.List[:si] {
+			ifs, ok := prev.(*ast.IfStmt)
+			if !ok || len(ifs.Body.List) == 0 {
+				continue
+			}
+			be, ok := ast.Unparen(ifs.Cond).(*ast.BinaryExpr)
+			if !ok || be.Op != token.EQL || !(isNilIdent(info, be.Y) && isIdentObj(info, be.X, xo) || isNilIdent(info, be.X) && isIdentObj(info, be.Y, xo)) {
+				continue
+			}
+			switch l := ifs.Body.List[len(ifs.Body.List)-1].(type) {
+			case *ast.BranchStmt:
+				leaves = l.Tok == token.BREAK && l.Label == nil
+			case *ast.ReturnStmt:
+				leaves = true
+			}
+		}
+		if leaves {
+			return "every iteration replaces " + cid.Name + " by a component of one of its own elements (" + exprStr(as.Rhs[0]) + ") and the loop is left when no element is found: bounded by the depth of the tree"
+		}
+	}
+	return ""
+}
+
+// returnsElementOfParam: every result 0 of t is nil, an element of parameter idx (p[i], the
+// value variable of a range over p), or a local every definition of which is one of these.
+func returnsElementOfParam(t *Func, idx int) bool {
+	sig, ok := t.Obj.Type().(*types.Signature)
+	if t.Obj == nil || !ok || idx >= sig.Params().Len() {
+		return false
+	}
+	po := sig.Params().At(idx)
+	info := t.Info()
+	if len(t.Assignments(po)) != 0 {
+		return false
+	}
+	var isElem func(e ast.Expr, depth int) bool
+	isElem = func(e ast.Expr, depth int) bool {
+		if depth > 3 {
+			return false
+		}
+		e = ast.Unparen(e)
+		if isNilIdent(info, e) {
+			return true
+		}
+		switch y := e.(type) {
+		case *ast.IndexExpr:
+			return isIdentObj(info, y.X, po)
+		case *ast.Ident:
+			o := info.ObjectOf(y)
+			if o == nil {
+				return false
+			}
+			as := t.Assignments(o)
+			if len(as) == 0 {
+				return false
+			}
+			for _, a := range as {
+				switch s := a.(type) {
+				case *ast.RangeStmt:
+					// over the parameter itself or over a collection field of it (p.Blocks)
+					root, _ := pathSteps(s.X)
+					if vid, ok := s.Value.(*ast.Ident); !ok || info.ObjectOf(vid) != o || root == nil || info.ObjectOf(root) != po {
+						return false
+					}
+				case *ast.ValueSpec:
+					if len(s.Values) != 0 {
+						return false
+					}
+				case *ast.AssignStmt:
+					if len(s.Lhs) != len(s.Rhs) {
+						return false
+					}
+					for i, l := range s.Lhs {
+						if isIdentObj(info, l, o) && !isElem(s.Rhs[i], depth+1) {
+							return false
+						}
+					}
+				default:
+					return false
+				}
+			}
+			return true
+		}
+		return false
+	}
+	n, good := 0, true
+	ast.Inspect(t.Body, func(k ast.Node) bool {
+		if _, isLit := k.(*ast.FuncLit); isLit {
+			return false
+		}
+		ret, ok := k.(*ast.ReturnStmt)
+		if !ok {
+			return true
+		}
+		n++
+		if len(ret.Results) < 1 || !isElem(ret.Results[0], 0) {
+			good = false
+		}
+		return true
+	})
+	return n > 0 && good
 }
